@@ -159,6 +159,9 @@ func handTargets() []target {
 	add("json/loaded-print", "(json:load-string \"{\\\"k07\\\":1,\\\"k03\\\":2,\\\"k11\\\":3,\\\"k01\\\":4,\\\"k09\\\":5,\\\"k05\\\":{\\\"z\\\":1,\\\"y\\\":2,\\\"x\\\":3,\\\"w\\\":4,\\\"v\\\":5}}\")")
 	add("json/loaded-format", "(format-string \"{}\" (json:load-string \"{\\\"k07\\\":1,\\\"k03\\\":2,\\\"k11\\\":3,\\\"k01\\\":4,\\\"k09\\\":5,\\\"k05\\\":6}\"))")
 	add("help/package-core", "(help:help-package 'lisp)")
+	// several members of one object fail to load: WHICH failure is reported must not depend on Go map order
+	add("json/object-member-errors", "(handler-bind ([condition (lambda (c &rest d) (list c d))]) (json:load-string \"{\\\"k07\\\":77777777777777777777,\\\"k03\\\":33333333333333333333,\\\"k11\\\":11111111111111111111111,\\\"k01\\\":10000000000000000000001,\\\"k09\\\":99999999999999999999,\\\"k05\\\":55555555555555555555}\" :exact-integers true))")
+	add("json/nested-member-errors", "(handler-bind ([condition (lambda (c &rest d) (list c d))]) (json:load-bytes (to-bytes \"{\\\"a\\\":{\\\"x\\\":77777777777777777777,\\\"y\\\":33333333333333333333,\\\"z\\\":1},\\\"b\\\":[1,{\\\"p\\\":99999999999999999999,\\\"q\\\":88888888888888888888,\\\"r\\\":66666666666666666666}]}\") :exact-integers true))")
 	add("json/message", "(json:dump-message (sorted-map \"b\" 1 \"a\" (vector 1 2)))")
 	add("string/format", "(format-string \"{} {} {}\" 'a (vector 1 (sorted-map 'x 1)) 1.5)")
 	add("regexp", "(regexp:regexp-match? (regexp:regexp-compile \"^a+$\") \"aaa\")")
@@ -206,6 +209,48 @@ func errorTableTargets() []target {
 			}
 			sb.WriteString(")")
 			ts = append(ts, target{"errtable/" + q, sb.String()})
+		}
+	}
+	return ts
+}
+
+// callTableTargets: one target per registered callable: every call (q V) and (q V W) over a value set chosen to
+// reach both the failing and the succeeding paths of sequence- and string-consuming builtins (empty, homogeneous and
+// heterogeneous lists, so that a loop can fail half way).
+func callTableTargets() []target {
+	env := el.MustEnv(el.Opts{Stdlib: true})
+	reg := env.Runtime.Registry
+	vals := []string{"()", `(list "a" "b")`, `(list "x" "y" 3)`, `"s"`, "1", "'sym", `(vector "a" 1)`, `(sorted-map "k" 1)`, `(to-bytes "ab")`}
+	skip := map[string]bool{"time:sleep": true, "lisp:load-file": true, "lisp:debug-stack": true, "lisp:in-package": true,
+		"testing:test": true, "testing:benchmark": true, "testing:benchmark-simple": true, "testing:test-let": true, "testing:test-let*": true,
+		"time:utc-now": true, "time:time-elapsed": true, "lisp:gensym": true}
+	var ts []target
+	pkgs := reg.PackageNames()
+	sort.Strings(pkgs)
+	const h = "(handler-bind ([condition (lambda (c &rest d) (list c d))]) "
+	for _, pn := range pkgs {
+		if pn == "user" {
+			continue
+		}
+		pkg := reg.Package(pn)
+		ext := append([]string(nil), pkg.Externals()...)
+		sort.Strings(ext)
+		for _, sn := range ext {
+			v, ok := pkg.Symbol(sn)
+			if !ok || v == nil || v.Type != lisp.LFun || skip[pn+":"+sn] {
+				continue
+			}
+			q := pn + ":" + sn
+			var sb strings.Builder
+			sb.WriteString("(list")
+			for _, a := range vals {
+				fmt.Fprintf(&sb, " %s(%s %s))", h, q, a)
+				for _, b := range vals {
+					fmt.Fprintf(&sb, " %s(%s %s %s))", h, q, a, b)
+				}
+			}
+			sb.WriteString(")")
+			ts = append(ts, target{"calltable/" + q, sb.String()})
 		}
 	}
 	return ts
@@ -272,6 +317,19 @@ func childMain(mode string) {
 		}
 	}
 	out := childOut{Transcripts: map[string]string{}}
+	if mode == "residue" {
+		// One P, no collector: a process-wide free list (sync.Pool, package-level scratch) hands the SAME object back
+		// on the next call, so residue left by one evaluation is seen by the next one deterministically.  Every call
+		// table runs three times in fresh runtimes; ID#1 is the first, ID#2 / ID#3 the later ones.
+		for _, t := range callTableTargets() {
+			for n := 1; n <= 3; n++ {
+				out.Transcripts[fmt.Sprintf("%s#%d", t.ID, n)] = transcript(t.Src, nil)
+			}
+		}
+		b, _ := json.Marshal(out)
+		os.Stdout.Write(b)
+		return
+	}
 	for _, t := range allTargets(thorough) {
 		out.Transcripts[t.ID] = transcript(t.Src, nil)
 	}
@@ -292,6 +350,9 @@ func runChild(mode string, thorough bool) (map[string]string, error) {
 	}
 	if mode == "ballast" {
 		cmd.Env = append(cmd.Env, "GOGC=off")
+	}
+	if mode == "residue" {
+		cmd.Env = append(cmd.Env, "GOGC=off", "GOMAXPROCS=1")
 	}
 	var ob, eb bytes.Buffer
 	cmd.Stdout, cmd.Stderr = &ob, &eb
@@ -355,7 +416,7 @@ func run(r *core.Run) {
 	r.Bound("activities", len(acts))
 	r.Bound("history_length", 2)
 	r.Rule("targets: hand-written programs that print, enumerate and compare sorted maps of 1..12 keys in 3 insertion orders through 9 sinks, closures with 1..8 captured bindings, errors with stack traces, gensym, packages, help listings, schema validators, JSON; plus one target per exported stdlib/core callable holding its error messages for 13 argument values in 2 positions. " +
-		"(1) every target after every sequence of <=2 activities (8 kinds) run in other runtimes of this process vs a fresh process; (2) target pairs under every schedule up to the preemption bound vs solo; (3) two fresh processes with different heap layouts, and a pointer-pattern scan of every transcript; (4) R repeated in-process runs (statistical: samples Go's map-iteration seed). Non-trivial = distinct target")
+		"(1) every target after every sequence of <=2 activities (8 kinds) run in other runtimes of this process vs a fresh process; (2) target pairs under every schedule up to the preemption bound vs solo; (3) two fresh processes with different heap layouts, and a pointer-pattern scan of every transcript; (4) R repeated in-process runs (statistical: samples Go's map-iteration seed); (5) for EVERY exported callable the table of calls (q V) and (q V W) over 9 values (empty / homogeneous / heterogeneous lists, string, int, symbol, vector, map, bytes) run three times in a child process with one P and the collector off, where process-wide free lists hand residue back deterministically: later runs vs the first. Non-trivial = distinct target")
 	r.Assume("transcript = printed value, stderr, error condition + message + rendered stack trace, step count")
 	r.Assume("oracle 4 (map iteration order) is sampling, not enumeration: the Go runtime's per-iteration random start cannot be owned without patching the runtime; a control (a bare Go map of 12 keys iterated R times must show >= 2 orders) is measured on every run")
 
@@ -382,6 +443,29 @@ func run(r *core.Run) {
 		}
 		if m := pointerish.FindString(a); m != "" {
 			r.Violate("c10", "address-in-output:"+t.ID, kase{t, nil, "address"}, "no memory address or Go-syntax dump in program output", m+" in "+trunc(a, 300), "")
+		}
+	}
+	// (5) residue of earlier evaluations in process-wide state, decided deterministically in a one-P child
+	residue, err := runChild("residue", r.Thorough())
+	if err != nil {
+		r.Violate("c10", "harness:child", nil, "child process runs", err.Error(), "")
+		return
+	}
+	cts := callTableTargets()
+	r.Bound("call_table_callables", len(cts))
+	r.AddStates(int64(len(cts)))
+	for _, t := range cts {
+		r.Nontrivial(t.ID)
+		first := residue[t.ID+"#1"]
+		r.Outcome("calltable:" + transcriptKind(first))
+		for n := 2; n <= 3; n++ {
+			r.AddEvals(1)
+			r.AddTransitions(1)
+			if again := residue[fmt.Sprintf("%s#%d", t.ID, n)]; again != first {
+				r.Violate("c10", classOf("residue", t, first, again), kase{t, []string{"the same call table, earlier in the same process"}, "residue"},
+					"the transcript of the first run in the process", diffAt(first, again), "")
+				break
+			}
 		}
 	}
 	// (1) history independence: every sequence of <= 2 activities
@@ -549,6 +633,14 @@ func replay(v core.Violation) (bool, string) {
 	k, err := core.CaseOf[kase](v)
 	if err != nil {
 		return false, err.Error()
+	}
+	if k.Kind == "residue" {
+		res, err := runChild("residue", true)
+		if err != nil {
+			return false, err.Error()
+		}
+		a, b, c := res[k.Target.ID+"#1"], res[k.Target.ID+"#2"], res[k.Target.ID+"#3"]
+		return a != b || a != c, fmt.Sprintf("target %s\nfirst run:  %s\nsecond run: %s\nthird run:  %s", k.Target.Src, trunc(a, 600), trunc(b, 600), trunc(c, 600))
 	}
 	base, err := runChild("plain", true)
 	if err != nil {
